@@ -306,6 +306,7 @@ class StmtMixin:
             probe = st.fork(); probe.exc_sink = sink
             for kind, s2, v in body_runner(probe):
                 for k, sv in s2.env.items():
+                    if not isinstance(sv, SV): continue      # bookkeeping entries of an inlined callee (__depth__)
                     old = st.env.get(k)
                     if old is None or old.ty != sv.ty or not _same(old.t, sv.t): mod_env[k] = sv.ty
                 for k, arr in s2.heap.items():
